@@ -168,6 +168,8 @@ func VP_C04_RoundTrip() {
 		txt, err := b.MarshalText()
 		line := w.b[before:]
 		vpAssert(err == nil && bytes.Equal(txt, line), "MarshalText and Write produce identical bytes")
+		(&BED{N: 4, Chrom: "zz", ChromStart: 1, ChromEnd: 2, Name: "yy"}).MarshalText()
+		vpAssert(bytes.Equal(txt, line), "bytes returned by MarshalText are not disturbed by a later MarshalText call")
 		tabs, nls := 0, 0
 		for _, c := range line {
 			if c == '\t' {
